@@ -689,13 +689,36 @@ GenStr gen_uint_str(vh::Reader &rd)
       return {"-" + dec128((static_cast<unsigned __int128>(1) << 64) - rd.below(70000)), "neg-wrap"};
     case 3:
     {
+      // decorations compose: a blank in front of a signed number, also of one whose negation wraps around to
+      // something small (strtoull skips the blank and reads the sign itself; seeded C18-m10 was missed because
+      // blanks were only ever put in front of unsigned digits)
       GenStr g = gen_uint_core(rd);
-      return {pick_blank(rd) + g.s, "lead-blank"};
+      std::string blank = pick_blank(rd);
+      switch (rd.weighted({5, 2, 3}))
+      {
+        case 0:
+          return {blank + g.s, "lead-blank"};
+        case 1:
+          return {blank + (rd.coin() ? "-" : "+") + g.s, "lead-blank+sign+" + g.cls};
+        default:
+          return {blank + "-" + dec128((static_cast<unsigned __int128>(1) << 64) - rd.below(70000)),
+                  "lead-blank+neg-wrap"};
+      }
     }
     case 4:
     {
       GenStr g = gen_uint_core(rd);
-      return {g.s + pick_blank(rd), "trail-blank"};
+      std::string blank = pick_blank(rd);
+      switch (rd.weighted({5, 2, 3}))
+      {
+        case 0:
+          return {g.s + blank, "trail-blank"};
+        case 1:
+          return {(rd.coin() ? "-" : "+") + g.s + blank, "sign+trail-blank+" + g.cls};
+        default:
+          return {"-" + dec128((static_cast<unsigned __int128>(1) << 64) - rd.below(70000)) + blank,
+                  "neg-wrap+trail-blank"};
+      }
     }
     case 5:
     {
